@@ -327,6 +327,53 @@ Section Model.
     end.
 
   (* ------------------------------------------------------------------ independent specification *)
+  (* the mirror table: the container that mirrors grid [g] for decorator [d] and holds the function's result [r] *)
+  Definition mirror_of (d : maker) (g : grid) (r : res1) : container :=
+    match g, d, r with
+    | G2D m _, ToArray, Vals v => Array2D m v
+    | G2D m _, ToGrid, Pairs p => Grid2D m p
+    | G2D m cs, ToVector, Pairs p => Vector2D m cs p
+    | GIrr _, ToArray, Vals v => ArrayIrr v
+    | GIrr _, ToGrid, Pairs p => GridIrr p
+    | GIrr cs, ToVector, Pairs p => VectorIrr cs p
+    | G1D m _, ToArray, Vals v => Array1D m v
+    | G1D m _, ToGrid, Pairs p => Grid2D (to_mask_2d m) p
+    | _, _, _ => RawOne r
+    end.
+  Definition res1_size (r : res1) : nat := match r with Vals v => length v | Pairs p => length p end.
+  Definition n_points (g : grid) : nat :=
+    match g with
+    | G2D m _ => count2 (bits2 m)
+    | G1D m _ => count1 (bits1 m)
+    | GIrr cs | GRaw cs => length cs
+    end.
+  (* the result has the kind the decorator is meant for, one entry per point of the grid (and the grid one coordinate per
+     unmasked pixel) *)
+  Definition fits (d : maker) (g : grid) (r : res1) : bool :=
+    match d, r with
+    | ToArray, Vals _ | ToGrid, Pairs _ | ToVector, Pairs _ => true
+    | _, _ => false
+    end
+    && Nat.eqb (res1_size r) (n_points g)
+    && match g, d with
+       | G2D m cs, _ => Nat.eqb (length cs) (count2 (bits2 m))
+       | G1D m _, ToVector => false
+       | GRaw _, _ => false
+       | _, _ => true
+       end.
+  (* accessors used in the statements *)
+  Definition entries (c : container) : res1 :=
+    match c with
+    | Array2D _ v | ArrayIrr v | Array1D _ v => Vals v
+    | Grid2D _ p | Vector2D _ _ p | GridIrr p | VectorIrr _ p => Pairs p
+    | RawOne r => r
+    end.
+  Definition on_mask2 (c : container) : option mask2 :=
+    match c with Array2D m _ | Grid2D m _ | Vector2D m _ _ => Some m | _ => None end.
+  Definition on_mask1 (c : container) : option mask1 := match c with Array1D m _ => Some m | _ => None end.
+  Definition attached_grid (c : container) : option (list pt) :=
+    match c with Vector2D _ g _ | VectorIrr g _ => Some g | _ => None end.
+
   (* k-th unmasked pixel in row-major order, and its centre in scaled units (closed form) *)
   Definition unmasked_px (b : list (list bool)) : list (nat * nat) :=
     concat (map (fun yr => map (fun xb => (fst yr, fst xb))
@@ -347,6 +394,15 @@ Section Model.
   Definition spec_reach (m : mask2) (c : pt) : T * T :=           (* (reach along y, reach along x) *)
     (add O (fst (spec_halfspan m)) (absT (sub O (fst c) (fst (org2 m)))),
      add O (snd (spec_halfspan m)) (absT (sub O (snd c) (snd (org2 m))))).
+  Definition spec_along_y (m : mask2) (c : pt) : bool := leb O (snd (spec_reach m c)) (fst (spec_reach m c)).
+  Definition spec_step (m : mask2) (c : pt) : T := if spec_along_y m c then fst (ps2 m) else snd (ps2 m).
+  Definition spec_far (m : mask2) (c : pt) : T := if spec_along_y m c then fst (spec_reach m c) else snd (spec_reach m c).
+  Definition spec_count (m : mask2) (c : pt) : nat := Z.to_nat (floorZ O (div O (spec_far m c) (spec_step m c)) + 1).
+  Definition spec_projected (m : mask2) (c ang : pt) (remove_centre : bool) : list pt :=
+    spec_line c ang (spec_step m c) (spec_count m c) remove_centre.
+  (* squared Euclidean radius *)
+  Definition norm2 (p : pt) : T := add O (sq (fst p)) (sq (snd p)).
+  Definition radius (p : pt) : T := sqrtT O (norm2 p).
 End Model.
 
 (* ====================================================================== correspondence cases (exact rationals) *)
@@ -522,11 +578,7 @@ Definition spec_ok (k : case) : bool :=
       let ang := match a with Some a => (- snd a, fst a) | None => (1, 0) end in      (* cos, sin of angle + 90 degrees *)
       match s with
       | SMask m | S2D m _ =>
-          let reach := @spec_reach QOps m c0 in
-          let step := if Qle_bool (snd reach) (fst reach) then fst (ps2 m) else snd (ps2 m) in
-          let far := if Qle_bool (snd reach) (fst reach) then fst reach else snd reach in
-          let n := Z.to_nat (Qfloor (far / step) + 1) in
-          psnear (@spec_line QOps c0 ang step n rc) seen
+          psnear (@spec_projected QOps m c0 ang rc) seen
           && match uapply u (ucoords seen), out with
              | Ok (One (Vals v)), Ok (OOne (Array1D m1 v')) =>
                  vnear v v' && mask1_eqb m1 (@nomask1 QOps (length seen) (fst (ps2 m)))
